@@ -147,13 +147,13 @@ def run(ctx, chk):
     outside = sorted(set(f for f, bb, line, rv, kind in ipst
                          if not f.startswith('interpreter::') and not f.startswith('cpu::Registers::')))
     vec_fns = outside
-    if outside == [CORE + 'handle_interrupt']:
+    if outside and set(outside) <= families(prog, [CORE + 'handle_interrupt']):
         chk.ok('C08.3', 'vector-writers', sample={'writers of PC outside instruction execution': outside})
     else:
         chk.fail('C08.3', 'vector-writers', 'PC is written outside instruction execution by %s (expected handle_interrupt only)'
                  % outside, file, None)
     clr = sorted(set(c[0] for c in prog.callers('devices::interrupts::InterruptFlag::clear')))
-    if clr == [CORE + 'handle_interrupt']:
+    if clr and set(clr) <= families(prog, [CORE + 'handle_interrupt']):
         chk.ok('C08.3', 'if-clear', sample={'callers of InterruptFlag::clear': clr})
     else:
         chk.fail('C08.3', 'if-clear', 'InterruptFlag::clear is called from %s' % clr, file, None)
@@ -216,11 +216,20 @@ def run(ctx, chk):
                             val = s['rv']['kind'].get('variant')
             if val == 'Run':
                 run_writers.add(fname)
-        allowed = {CORE + 'handle_interrupt', CORE + 'with_code_block', CORE + 'from_rom_file'}
-        if run_writers <= allowed and (CORE + 'handle_interrupt') in run_writers:
+        hfam = families(pg, [CORE + 'handle_interrupt'])
+        allowed = hfam | families(pg, [CORE + 'with_code_block', CORE + 'from_rom_file'])
+        if run_writers <= allowed and (run_writers & hfam):
             chk.ok('C08.4', cfg + ':run-writers', sample={'run_state := Run in': sorted(run_writers)})
         else:
             chk.fail('C08.4', cfg + ':run-writers', 'run_state := Run is stored in %s' % sorted(run_writers), file, None)
+    # ---- rule 7: a suspended CPU resumes only through handle_interrupt's wake-up, which needs an *enabled* request
+    chk.rule('C08.7', 'D', 'HALT/STOP end only when an enabled interrupt is requested: handle_interrupt stores '
+             'run_state := Run exactly when (IF & IE) != 0 on entry', floor=2)
+    from . import c07
+    for cfg in ('default', 'jit'):
+        _, rs7, _ = c07.analyse(ctx.facts(cfg))
+        IF7 = S(8, 'core.memory.io.interrupt_flag.0', ('field', 'devices::interrupts::InterruptFlag', '0', 'u8'))
+        c07.wake_rule(chk, 'C08.7', cfg, rs7, IF7, file)
     # ---- rule 5
     fixed = headercfg.fixed_buffer_sizes(facts)
     lens = {b: v[1] for b, v in fixed.items() if v[0] == 'const'}
